@@ -116,7 +116,7 @@ func (u *Unit) Sub(owner types.Type, fname string, ref Term) Term {
 		u.DeclareFun(fn, []Sort{SInt}, SInt)
 		u.DeclareFun(fn+".inv", []Sort{SInt}, SInt)
 		k := len(u.subFns)
-		u.emit(fmt.Sprintf("(assert (forall ((x Int)) (! (and (= (%s.inv (%s x)) x) (= (kind (%s x)) %d) (= (root (%s x)) (root x))) :pattern ((%s x)))))", fn, fn, fn, k, fn, fn))
+		u.emit(fmt.Sprintf("(assert (forall ((x Int)) (! (and (= (%s.inv (%s x)) x) (= (kind (%s x)) %d) (= (root (%s x)) (root x)) (=> (not (= x 0)) (not (= (%s x) 0)))) :pattern ((%s x)))))", fn, fn, fn, k, fn, fn, fn))
 	}
 	return App(fn, SInt, ref)
 }
